@@ -126,15 +126,26 @@ def ev(lang, pm, e, lo, hi, trace=None):
     elif k == 'collect':
         a = ev(lang, pm, e['lhs'], lo, hi, trace)
         r = ev(lang, pm, e['rhs'], a[0], a[1], trace)
-    elif k == 'union':
-        a, b = ev(lang, pm, e['lhs'], lo, hi, trace), ev(lang, pm, e['rhs'], lo, hi, trace)
-        r = (a[0] | b[0], a[1] | b[1])
-    elif k == 'intersection':
-        a, b = ev(lang, pm, e['lhs'], lo, hi, trace), ev(lang, pm, e['rhs'], lo, hi, trace)
-        r = (a[0] & b[0], a[1] & b[1])
-    elif k == 'difference':
-        a, b = ev(lang, pm, e['lhs'], lo, hi, trace), ev(lang, pm, e['rhs'], lo, hi, trace)
-        r = (a[0] - b[1], a[1] - b[0])
+    elif k in ('union', 'intersection', 'difference'):
+        # MAL evaluates a step expression per asset: the operator is applied to each start asset
+        # separately and the results are collected (for union this equals the pooled reading)
+        def one(x):
+            a, b = ev(lang, pm, e['lhs'], {x}, {x}, None), ev(lang, pm, e['rhs'], {x}, {x}, None)
+            if k == 'union':
+                return (a[0] | b[0], a[1] | b[1])
+            if k == 'intersection':
+                return (a[0] & b[0], a[1] & b[1])
+            return (a[0] - b[1], a[1] - b[0])
+        rl, rh = set(), set()
+        for x in lo:
+            rl |= one(x)[0]
+        for x in hi:
+            rh |= one(x)[1]
+        r = (rl, rh)
+        if trace is not None and len(hi) == 1:
+            x = next(iter(hi))
+            ev(lang, pm, e['lhs'], {x}, {x}, trace)
+            ev(lang, pm, e['rhs'], {x}, {x}, trace)
     elif k == 'subType':
         a = ev(lang, pm, e['stepExpression'], lo, hi, trace)
         u = e['subType']
@@ -208,10 +219,8 @@ def gen(lang, t, k, atoms=None, single=True, _memo=None):
     Restrictions (each keeps the oracle unambiguous, see DESIGN C01 'not demanded'):
     * collect is generated left-nested only (the form the compiler produces);
     * subType only with proper subtypes;
-    * transitive only over operands without difference / nested transitive;
-    * intersection and difference only where the input is the single start asset
-      (``single``): to the right of a collect or under a transitive operator the pointwise and
-      the set-level reading of MAL differ, so those shapes are not in the alphabet."""
+    * transitive only over operands without a nested transitive operator.
+    Set operators are generated everywhere; the reference applies them per start asset (MAL's reading)."""
     if _memo is None:
         _memo = {}
     key = (t, k, single)
@@ -227,7 +236,7 @@ def gen(lang, t, k, atoms=None, single=True, _memo=None):
             for v, (owner, body) in lang.variables(t).items():
                 if atoms is None or v in atoms:
                     tt = lang.type_of(body, owner)
-                    if tt and (single or not _pointwise_sensitive(lang, body)):
+                    if tt:
                         out.append(({'type': 'variable', 'name': v}, tt))
         for i in range(k):
             j = k - 1 - i
@@ -238,7 +247,7 @@ def gen(lang, t, k, atoms=None, single=True, _memo=None):
                 for r, rt in gen(lang, t, j, atoms, single, _memo):
                     c = lang.lca(lt, rt)
                     if c:
-                        for op in (('union', 'intersection', 'difference') if single else ('union',)):
+                        for op in ('union', 'intersection', 'difference'):
                             out.append(({'type': op, 'lhs': l, 'rhs': r}, c))
         for e, et in gen(lang, t, k - 1, atoms, False, _memo):
             if lang.is_sub(t, et) and not has(e, 'transitive') and lang.type_of(e, et) == et:
